@@ -1,9 +1,47 @@
+"""Single source of truth for MANIFEST.json claims (tools/gen_manifest.py renders it)."""
+
 ENGINES = [
-    {"name": "pyvc", "path": "vf/pyvc", "serves_properties": [],
-     "kind_free_text": "verification-condition generator over the real Python AST of /repo (re-read on every run), sidecar contracts, obligations discharged by z3 / cvc5"},
+    {"name": "pyvc", "path": "vf/pyvc", "serves_properties": ["C10", "C19", "C20"],
+     "kind_free_text": "verification-condition generator: symbolic execution of the real Python AST of /repo (re-read on every run) against sidecar contracts (vf/proofs), obligations discharged per clause by z3 5.1 / cvc5 / z3 4.8; concrete monitor evaluates the same contract text on the real functions"},
     {"name": "bounded", "path": "vf/bounded", "serves_properties": [],
-     "kind_free_text": "runtime contracts on the real functions over exhaustively enumerated small scopes (bounded stand-in, never counted as proved)"},
+     "kind_free_text": "runtime contracts (oracles from the property statements) on the real functions over exhaustively enumerated small scopes + seeded samples: bounded stand-in, never counted as proved"},
 ]
-NOTES = "See DESIGN.md. Exit codes: 0 held, 1 VIOLATION (replayed input or refuted obligation), 2 undecided, 3 checker broken."
-CHECKS = {}
-NOT_APPLICABLE = {f"C{i:02d}": "check not built yet (construction in progress; see DESIGN.md Appendix B)" for i in range(1, 21)}
+NOTES = ("See DESIGN.md. Exit codes: 0 held (KNOWN-FINDING lines allowed), 1 VIOLATION (replayed input / refuted obligation), "
+         "2 undecided (a ledger obligation stopped discharging and no failing input was found), 3 checker broken. "
+         "Technique family: contract-based deductive verification of the real code; where a property is decided only by the "
+         "bounded stand-in this is stated in level_claimed/technique.")
+
+HYBRID = ("other", "hybrid: deductive core (pyvc obligations on the real functions, all inputs) + bounded stand-in for what is out of the verifier's reach")
+BOUNDED = ("exploration", "bounded stand-in only")
+
+# property -> dict(category, text, note, technique, enabled)
+CHECKS_ALL = {
+    "C04": dict(category="exploration", enabled=True,
+                text="Bounded: runtime contract 'a spec replays the recorded encoding row by row' checked on the real library for 87 formula templates over every stateful/stateless built-in (no lag) x 10 kinds of follow-up frames (subsets, duplications, permutations, missing levels, sequences of follow-ups) x 4 replay routes incl. pickle. No deductive obligations yet for this property.",
+                note="bounded stand-in (labelled bounded, never counted as proved); rtol 1e-12 on replayed rows (BLAS may reorder dot products); follow-ups stay inside the training domain",
+                technique="runtime contracts on the real functions over enumerated (formula, training frame, follow-up) scopes (bounded stand-in of the contract family)"),
+    "C09": dict(category="exploration", enabled=True,
+                text="Bounded: (training, follow-up) pairs over kind changes, lost levels and unseen levels, for factors alone and in interactions, three storage dtypes x three outputs (exhaustive over the stated scenario grid) plus seeded random pairs; oracle from the statement (FactorEncodingError / all-zero columns / DataMismatchWarning and unchanged columns).",
+                note="bounded stand-in; depends on the fix commit pooling encoder_state (recorded as fixed in known_findings.json)",
+                technique="runtime contracts on the real functions over an exhaustive scenario grid (bounded stand-in)"),
+    "C10": dict(category="other", enabled=True,
+                text="Hybrid. Deductive: ModelSpec.term_indices (loop invariant over prefix sums: contiguous, disjoint, in term order, covering), column_names (concatenation), column_indices, get_column_indices, term_slices, __structure: every obligation discharged by z3 for all structures (unbounded). The same contract text is evaluated on every real call made by a materialization workload (CPython cross-check / counterexample search). Bounded: every accessor compared with a recomputation from the generated matrix on ~5000 formulas x data x outputs; subset() regenerates the parent's columns.",
+                note="assumes Term objects modelled modulo Term.__eq__ (string lookup by printed form is the known finding D13); dict insertion order; the link structure<->actual labels is bounded only",
+                technique="contract-based deductive verification: VCs generated from the real AST (pyvc), discharged by z3/cvc5; runtime-contract bounded stand-in for the end-to-end link"),
+    "C13": dict(category="exploration", enabled=True,
+                text="Bounded: scale/center/standardize contracts (zero mean, unit std for ddof, replay of recorded statistics) on all vectors over {-2..2}^n, n<=4 plus seeded vectors of length 2..50 and magnitude 1e-6..1e6; poly judged against exact Fraction Gram-Schmidt; TRANSFORMS entries against the math module and as inverse pairs.",
+                note="bounded stand-in; float tolerance 32*n*eps*kappa (kappa = exact cancellation factor); depends on the exp10 fix commit",
+                technique="runtime contracts on the real functions with exact-arithmetic oracles over enumerated vectors (bounded stand-in)"),
+    "C19": dict(category="other", enabled=False,
+                text="Hybrid. Deductive: LayeredMapping.__getitem__ (first layer containing the key, top first; KeyError iff no layer has it), __setitem__/__delitem__ (writes confined to the private layer, every other key and every supplied layer unchanged: frame obligations), __iter__ (each key of the merged view exactly once: nested-loop invariants over a recursive spec function) discharged for all layer stacks. Bounded: Structured map/flatten/simplify/update/merge laws on random nestings; LayeredMapping and SimpleFormula against list/dict models under all operation sequences of length <=2 and random ones <=8.",
+                note="supplied layers modelled as finite mappings; Structured is bounded only (recursive datatype out of the verifier's reach)",
+                technique="contract-based deductive verification (pyvc VCs + z3) for LayeredMapping; runtime-contract bounded stand-in for Structured/SimpleFormula"),
+    "C20": dict(category="other", enabled=True,
+                text="Hybrid. Deductive: differentiate_term (loop invariant: remaining factors are an order-preserving duplicate-free subsequence of the original ones with exactly the not-yet-consumed expressions; zero/one cases), _factor_symbols, _differentiate_factors, Factor.__eq__/__hash__ discharged for all terms and all wrt tuples against the product-rule postcondition taken from the statement. Bounded: all formulas of <=2 terms over 16 products x wrt tuples (exhaustive) for count/order/term-wise derivative, and exact finite differences on multilinear numeric data.",
+                note="Factor modelled modulo Factor.__eq__ (proved to compare expr only); OrderedSet/abc.Set/dict.fromkeys library contracts assumed; sympy path out of scope",
+                technique="contract-based deductive verification (pyvc VCs + z3) of the term-wise derivative; runtime-contract bounded stand-in for materialized finite differences"),
+}
+
+CHECKS = {k: v for k, v in CHECKS_ALL.items() if v.get("enabled")}
+_REASON = "check exists but still raises unresolved violations on the unchanged tree (triage of findings in progress); not claimed until it exits 0"
+NOT_APPLICABLE = {f"C{i:02d}": _REASON for i in range(1, 21) if f"C{i:02d}" not in CHECKS}
